@@ -516,6 +516,42 @@ func runExhaust(c *Ctx, r *Reporter, spec dispatcherSpec) {
 		return
 	}
 	cases, def := typeSwitchCases(info, ts)
+	// a default clause that hands the node on to another function of the package with a type switch of its own
+	// (format → formatExpr) continues the dispatch there: the cases add up and the last default is the no-match path
+	for hop := 0; hop < 3 && def != nil && len(def.Body) > 0; hop++ {
+		var next *FuncDecl
+		for _, st := range def.Body {
+			ast.Inspect(st, func(n ast.Node) bool {
+				call, ok := n.(*ast.CallExpr)
+				if !ok || next != nil {
+					return true
+				}
+				cf := calleeFunc(info, call)
+				if cf == nil || cf.Pkg() != pkg.Types || cf == fn.Obj {
+					return true
+				}
+				for _, d2 := range Funcs(pkg) {
+					if d2.Obj == cf {
+						if _, ts2 := nodeDispatcher(pkg, d2, iface); ts2 != nil && ts2 != ts {
+							next = d2
+						}
+					}
+				}
+				return true
+			})
+		}
+		if next == nil {
+			break
+		}
+		_, ts2 := nodeDispatcher(pkg, next, iface)
+		more, def2 := typeSwitchCases(info, ts2)
+		for tn, cc := range more {
+			if _, dup := cases[tn]; !dup {
+				cases[tn] = cc
+			}
+		}
+		def, ts = def2, ts2
+	}
 	// no-match path
 	noMatchLoud := false
 	if def != nil {
